@@ -29,8 +29,11 @@ def _run_group(g):
     from . import verify
     t0 = time.time()
     cpu0 = time.process_time()
+    from .interp import USED_CONTRACTS
+    USED_CONTRACTS.clear()
     obs, info, err = verify.run_group(g.fn, *g.args, **g.kwargs)
     info = {k: (sorted(v) if isinstance(v, set) else v) for k, v in (info or {}).items()}
+    info['used_contracts'] = sorted(USED_CONTRACTS)
     return g.gid, [o.as_dict() for o in obs], info, err, time.time() - t0, time.process_time() - cpu0
 
 
@@ -45,6 +48,21 @@ def _pool_entry(args):
             except Exception:
                 return gid, [], {}, ('error', traceback.format_exc()), 0.0, 0.0
     return gid, [], {}, ('error', 'group not found'), 0.0, 0.0
+
+
+def _closure_entry(args):
+    """a group added by the callee closure (cbv/props/catalogue.py), rebuilt in the worker from the list of missing contracts"""
+    prop, tier, seed, missing, have, gid = args
+    mod = importlib.import_module('cbv.props.' + prop)
+    mod.plan(tier, seed)                              # side effects of the plan (ghost switches) apply to closure groups too
+    from .props import catalogue
+    for g in catalogue.closure_groups(list(missing), tier, set(have)):
+        if g.gid == gid:
+            try:
+                return _run_group(g)
+            except Exception:
+                return gid, [], {}, ('error', traceback.format_exc()), 0.0, 0.0
+    return gid, [], {}, ('error', 'closure group not found'), 0.0, 0.0
 
 
 def native(script, args, timeout=3000, env=None):
@@ -102,6 +120,35 @@ def main(argv=None):
         it = pool.imap_unordered(_pool_entry, [(prop, tier, seed, g.gid) for g in groups])
         for res in it:
             results[res[0]] = res
+
+    # ---- callee closure: every contract applied to a callee gets the callee's own obligations into THIS check --------------
+    def _verified():
+        v = set()
+        for g in groups:
+            for mk, q in g.functions:
+                v.add('%s:%s' % (mk, q))
+                if q.endswith('.forward'):
+                    v.add('%s:%s' % (mk, q[:-len('.forward')] + '.apply'))
+        return v
+    closure_added = []
+    if os.environ.get('VERIF_NO_CLOSURE') != '1':
+        from .props import catalogue
+        for _round in range(3):
+            used_c = set()
+            for g in groups:
+                r_ = results.get(g.gid)
+                if r_ and isinstance(r_[2], dict):
+                    used_c.update(r_[2].get('used_contracts') or [])
+            missing = tuple(sorted(k for k in used_c if k in catalogue.CALLEE_GROUPS and k not in _verified()))
+            have = tuple(sorted(g.gid for g in groups))
+            extra = catalogue.closure_groups(list(missing), tier, set(have)) if missing else []
+            if not extra:
+                break
+            with ctxm.Pool(processes=min(jobs, max(1, len(extra))), maxtasksperchild=4) as pool:
+                for res in pool.imap_unordered(_closure_entry, [(prop, tier, seed, missing, have, g.gid) for g in extra]):
+                    results[res[0]] = res
+            groups = groups + extra
+            closure_added += [g.gid for g in extra]
 
     # ---- native part: spec-vs-oracle, axiom twins, bounded tier ---------------------
     native_res = []
@@ -202,6 +249,20 @@ def main(argv=None):
             violations.append((g, [o for o in obs if o['status'] == 'refuted']))
         elif st == 'undecided':
             undecided.append((g, err[1] if err else [o['id'] for o in obs if o['status'] != 'proved']))
+
+    # modularity audit: a callee contract applied by some group of this plan must have its own obligations in this plan
+    used_c = set()
+    for g in groups:
+        r_ = results.get(g.gid)
+        if r_ and isinstance(r_[2], dict):
+            used_c.update(r_[2].get('used_contracts') or [])
+    verified_fn = set()
+    for g in groups:
+        for mk, q in g.functions:
+            verified_fn.add('%s:%s' % (mk, q))
+            if q.endswith('.forward'):
+                verified_fn.add('%s:%s' % (mk, q[:-len('.forward')] + '.apply'))
+    assumed_only = sorted(k for k in used_c if ':' in k and k not in verified_fn)
 
     lines = []
     rc = 0
@@ -344,6 +405,8 @@ def main(argv=None):
                                                             if plan.get('lean_lemmas') else []),
             'explanation': plan.get('explanation', ''),
             'functions_under_contract': funcs,
+            'callee_contracts_without_own_obligation_in_this_plan': assumed_only,
+            'groups_added_by_callee_closure': closure_added,
             'backends': backends, 'solver_seconds': round(solver_s, 2),
             'groups': gsummary,
             'samples': [o for o in all_obs if not o.get('region')][:12],
